@@ -2,8 +2,10 @@ package main
 
 import (
 	"fmt"
+	"go/constant"
 	"go/token"
 	"go/types"
+	"math/big"
 	"os"
 	"sort"
 	"strings"
@@ -515,6 +517,53 @@ func (fb *fnBounds) postFacts(in ssa.Instruction) []constraint {
 			why := "index expression succeeded"
 			cs = append(cs, geq(i, linConst(0), why), gt(fb.lenOf(t.X, t, 0), i, why))
 		}
+	case *ssa.BinOp:
+		// definitions of x>>k, x/k, x%k, x&k for an unsigned x and a constant k (bitmap and bucket
+		// arithmetic): the result is a fresh variable tied to x by linear facts
+		if !isIntType(t.Type()) || !isUnsignedType(t.X.Type()) {
+			break
+		}
+		k, isK := t.Y.(*ssa.Const)
+		if !isK || k.Value == nil {
+			break
+		}
+		kv, exact := constant.Int64Val(constant.ToInt(k.Value))
+		if !exact || kv < 0 {
+			break
+		}
+		x, okx := fb.linOf(t.X, t, 0)
+		if !okx {
+			break
+		}
+		res := linVar(ssaName(t))
+		why := "definition of " + describeIdx(t)
+		cs = append(cs, geq(x, linConst(0), "unsigned operand"))
+		if max := unsignedMax(t.X.Type()); max > 0 {
+			cs = append(cs, geq(linConst(max), x, "unsigned operand"))
+		}
+		switch t.Op {
+		case token.SHR, token.QUO:
+			var div int64
+			if t.Op == token.SHR {
+				if kv > 62 {
+					break
+				}
+				div = int64(1) << uint(kv)
+			} else {
+				div = kv
+			}
+			if div <= 0 {
+				break
+			}
+			// div·r ≤ x ≤ div·r + div − 1
+			cs = append(cs, geq(res, linConst(0), why), geq(x, res.scale(big.NewRat(div, 1)), why), geq(res.scale(big.NewRat(div, 1)).addK(div-1), x, why))
+		case token.REM:
+			if kv > 0 {
+				cs = append(cs, geq(res, linConst(0), why), geq(linConst(kv-1), res, why), geq(x, res, why))
+			}
+		case token.AND:
+			cs = append(cs, geq(res, linConst(0), why), geq(linConst(kv), res, why), geq(x, res, why))
+		}
 	case *ssa.Call:
 		callee := t.Call.StaticCallee()
 		if callee == nil {
@@ -774,6 +823,42 @@ func (fb *fnBounds) inferPhiInvariants() {
 						at:   func(at ssa.Instruction) constraint { return fb.invConstraint(c, base, at, false) },
 						fact: fb.invConstraint(c, base, first, false)})
 				}
+			}
+		}
+	}
+	// a cursor field does not fall below a value read from it before the join (a loop that only moves the
+	// cursor forward: start := s.i; for … { s.i++ }; buf[start:s.i])
+	for _, b := range fn.Blocks {
+		if len(b.Preds) < 2 {
+			continue
+		}
+		for _, db := range fn.Blocks {
+			if db == b || !db.Dominates(b) {
+				continue
+			}
+			for _, in := range db.Instrs {
+				ld, ok := in.(*ssa.UnOp)
+				if !ok || ld.Op != token.MUL || !isIntType(ld.Type()) {
+					continue
+				}
+				fa, ok := ld.X.(*ssa.FieldAddr)
+				if !ok {
+					continue
+				}
+				if bi, ok := fa.X.(ssa.Instruction); ok && !(bi.Block() != b && bi.Block().Dominates(b)) {
+					continue
+				}
+				old, ok := fb.linOf(ld, ld, 0)
+				if !ok {
+					continue
+				}
+				fk := fieldOf(fa)
+				cls := "fld:" + fk.String()
+				base := fa.X
+				cur := func(at ssa.Instruction) constraint {
+					return geq(linVar(fmt.Sprintf("mem(%s.%s@%s)", fb.vid(base, at), fk.Field, fb.versionAt(cls, at))), old, "the field has not fallen below an earlier value of it")
+				}
+				fb.blockInv[b] = append(fb.blockInv[b], blockCand{alive: true, desc: fmt.Sprintf("%s ≥ its value at %s, at merge", fk.Field, fb.bp.p.pos(ld.Pos())), at: cur, fact: cur(b.Instrs[0])})
 			}
 		}
 	}
@@ -1378,4 +1463,26 @@ func (bp *boundsProver) writtenThroughBasesOnly(T *types.Named) bool {
 	}
 	bp.basesOnly[T] = res
 	return res
+}
+
+func isUnsignedType(t types.Type) bool {
+	b, ok := t.Underlying().(*types.Basic)
+	return ok && b.Info()&types.IsUnsigned != 0
+}
+
+// unsignedMax: the largest value of a small unsigned type (0 when it does not fit an int64 comfortably).
+func unsignedMax(t types.Type) int64 {
+	b, ok := t.Underlying().(*types.Basic)
+	if !ok {
+		return 0
+	}
+	switch b.Kind() {
+	case types.Uint8:
+		return 255
+	case types.Uint16:
+		return 65535
+	case types.Uint32:
+		return 1<<32 - 1
+	}
+	return 0
 }
